@@ -147,7 +147,7 @@ def to_J(v):
     return {"o": 0}
 
 
-def J_equal(a, b, path="", sort_keys=("awgspecs",)):
+def J_equal(a, b, path="", sort_keys=("awgspecs",), tol=0):
     """structural equality of two canonical J values; returns None or a diff string.
     Numbers are compared exactly (as rationals).  The entries of dicts named in sort_keys
     are compared as sets (Python dict equality ignores order)."""
@@ -158,7 +158,10 @@ def J_equal(a, b, path="", sort_keys=("awgspecs",)):
     if ka != kb:
         return f"{path}: kind {a!r} != {b!r}"
     if ka == "q":
-        return None if Fraction(a["q"]) == Fraction(b["q"]) else f"{path}: {a['q']} != {b['q']}"
+        fa, fb = Fraction(a["q"]), Fraction(b["q"])
+        if fa == fb or (tol and abs(fa - fb) <= tol * max(1, abs(fb))):
+            return None
+        return f"{path}: {a['q']} != {b['q']}"
     if ka == "s":
         return None if a["s"] == b["s"] else f"{path}: {a['s']!r} != {b['s']!r}"
     if ka == "o":
@@ -167,7 +170,7 @@ def J_equal(a, b, path="", sort_keys=("awgspecs",)):
         if len(a["a"]) != len(b["a"]):
             return f"{path}: list lengths {len(a['a'])} != {len(b['a'])}"
         for i, (x, y) in enumerate(zip(a["a"], b["a"])):
-            d = J_equal(x, y, f"{path}[{i}]", sort_keys)
+            d = J_equal(x, y, f"{path}[{i}]", sort_keys, tol)
             if d:
                 return d
         return None
@@ -179,7 +182,7 @@ def J_equal(a, b, path="", sort_keys=("awgspecs",)):
         if [k for k, _ in la] != [k for k, _ in lb]:
             return f"{path}: keys {[k for k, _ in la]} != {[k for k, _ in lb]}"
         for (k, x), (_, y) in zip(la, lb):
-            d = J_equal(x, y, f"{path}.{k}", sort_keys)
+            d = J_equal(x, y, f"{path}.{k}", sort_keys, tol)
             if d:
                 return d
         return None
@@ -842,7 +845,8 @@ def compare_op(op, ri, rm, tol=1e-9, errclass=True):
             return f"{path}.serialisable: impl {vi['serialisable']} != model {vm['serialisable']}"
         return None
     if o in ("el.desc", "sq.desc"):
-        d = J_equal(vi["desc"], vm["desc"], "desc")
+        # `_numtol`: the values were computed by the implementation in floating point (linspace)
+        d = J_equal(vi["desc"], vm["desc"], "desc", tol=Fraction(op.get("_numtol", 0)))
         if d:
             return f"{path}: {d}"
         if vi["serialisable"] != vm["serialisable"]:
